@@ -941,6 +941,27 @@ def rule_act_size(rep, repo):
   except PyRaise as e:
     rep.fail("R7", unit2, "model-size-raises", "raises %s" % e,
              loc=fb.loc(cm))
+  # a class the configuration EXCLUDES with an empty entry contributes
+  # nothing (it does not fall back to the default entry)
+  o3 = Obj(c)
+  o3.attrs.update({"config": {"QActivation": [], "Flatten": (),
+                              "default": ["parameters", "activations"]}})
+  o3.attrs["_param_size"] = lambda pe, a, k: S("p_" + a[0].attrs["name"])
+  o3.attrs["_act_size"] = lambda pe, a, k: S("a_" + a[0].attrs["name"])
+  pe = PE(repo)
+  try:
+    r = pe.call_func(Func(cm, fb, [], "compute_model_size", o3, c), [model],
+                     {})
+    tot = fw(r[0].term) if isinstance(r[0], Tensor) else NF.const(F(r[0]))
+    rep.check(tot == N("p_d") + N("a_d"), "R7", unit2,
+              "excluded-class-counted",
+              "with the configuration {'QActivation': [], 'Flatten': (), "
+              "'default': ['parameters', 'activations']} the model size is "
+              "%s; expected the QDense layer only: %s" % (
+                  show(tot), show(N("p_d") + N("a_d"))), loc=fb.loc(cm))
+  except PyRaise as e:
+    rep.fail("R7", unit2, "model-size-raises", "with an empty class entry: "
+             "raises %s" % e, loc=fb.loc(cm))
   # adjusted_score = metric * (1 + delta)
   aq = repo.module(AQ)
   hm = aq.classes["AutoQKHyperModel"]
